@@ -53,6 +53,7 @@ def routes(E, case):
             yield 'best_path(%s matrix)' % eng, eng, res, None
             continue
         d, M = res
+        yield 'matrix marks(%s)' % eng, eng, M, d
         if not case.get('penalty'):
             # without a penalty argument the greedy back-tracking is only defined for penalty-free matrices
             yield 'best_path(%s matrix)' % eng, eng, core.call(dtw.best_path, M), d
@@ -132,6 +133,23 @@ def check_case(acc, E, case, custom=False):
     v = oracles.cells_value(D, r, c, psi)
     exp = I.result(v) if v < inf else inf
     for route, eng, p, d in routes(E, case):
+        if route.startswith('matrix marks'):
+            # The direct best_path routes start from the -1 marks of the matrix.  If the matrix marks EVERY optimal end cell
+            # of the relaxed last row / column as skipped, the matrix (not the back-tracking) is wrong: reported under its own
+            # check name, so that the open finding K01 (ties next to correctly placed marks) cannot absorb it.
+            if exp != inf and (psi[1] or psi[3]):
+                ends = [(i, c - 1) for i in range(max(0, r - 1 - psi[1]), r)] + [(r - 1, j) for j in range(max(0, c - 1 - psi[3]), c)]
+                best = [e for e in ends if e in D and core.ulp_close(D[e], v, 4, 1e-12)]
+                acc.valid()
+                try:
+                    marked = [e for e in best if float(p[e[0] + 1][e[1] + 1]) == -1.0]
+                except Exception as ex:  # noqa: BLE001
+                    marked, best = None, None
+                    acc.violation('path_matrix', route, eng, tags_of(case, route), case, 'a matrix', repr(ex))
+                if best and len(marked) == len(best):
+                    acc.violation('path_matrix', route, eng, tags_of(case, route), case, 'an optimal end cell that is not marked as skipped',
+                                  {'optimal_end_cells': best, 'all_marked_-1': True})
+            continue
         judge_path(acc, case, route, eng, p, d, exp, P, pen, ms, psi, I)
     if custom and nd == 1:
         # 7: dtw_best_path_customstart from every in-band finite cell on the compact internal matrix
